@@ -37,8 +37,14 @@ type world struct {
 	pipelines map[string]*ledger.Pipeline
 	exporters map[string]ledger.Exporter
 	// exporter side (external system: survives manager restarts)
-	failAccepts    int
-	ackedMax       uint64          // highest id acknowledged since the last reset
+	// batchMax > 0: the exporter sits behind the real batching driver (drivers.NewWithBatchingDriverFactory, as wired in
+	// production) with maxItems = batchMax and a flush interval of 300us; 0: it is plugged into the Manager directly
+	batchMax      int
+	failItemsNext int    // bit i set: the next Accept refuses item i only (per-item error, nil overall error); batched mode only
+	offeredMax    uint64 // highest id ever handed to the exporter, acknowledged or not
+	partialFails  int
+	failAccepts   int
+	ackedMax      uint64 // highest id acknowledged since the last reset
 	delivered      map[uint64]int  // id -> deliveries since the last reset
 	everDelivered  map[uint64]bool // id -> delivered at least once, ever
 	acceptCalls    int
@@ -61,6 +67,15 @@ type world struct {
 
 func newWorld() *world {
 	return &world{pipelines: map[string]*ledger.Pipeline{}, exporters: map[string]ledger.Exporter{}, delivered: map[uint64]int{}, everDelivered: map[uint64]bool{}, storeGate: make(chan struct{})}
+}
+
+// ackedPrefix is the last id n such that every log 1..n has been acknowledged since the last reset.
+func (w *world) ackedPrefix() uint64 {
+	n := uint64(0)
+	for w.delivered[n+1] > 0 {
+		n++
+	}
+	return n
 }
 
 func (w *world) violate(format string, args ...any) {
@@ -144,12 +159,13 @@ func (s storage) StorePipelineState(_ context.Context, id string, lastLogID uint
 	if !ok {
 		return postgres.ErrNotFound
 	}
-	s.w.note("  StorePipelineState(%d)  [acknowledged since last reset: %d]", lastLogID, s.w.ackedMax)
-	if lastLogID > s.w.ackedMax {
+	acked := s.w.ackedPrefix()
+	s.w.note("  StorePipelineState(%d)  [acknowledged without gap since last reset: 1..%d]", lastLogID, acked)
+	if lastLogID > acked {
 		if s.w.resets > 0 {
 			s.w.storeAfterReset = true
 		}
-		s.w.violate("the persisted last log id becomes %d while the exporter has acknowledged nothing beyond %d since the pipeline was last reset/created", lastLogID, s.w.ackedMax)
+		s.w.violate("the persisted last log id becomes %d while the exporter has acknowledged, since the pipeline was last reset/created, only 1..%d without gap (highest single acknowledgement: %d)", lastLogID, acked, s.w.ackedMax)
 	}
 	p.LastLogID = pointer.For(lastLogID)
 	return nil
@@ -265,6 +281,9 @@ func (e exporter) Accept(ctx context.Context, logs ...drivers.LogWithLedger) ([]
 	defer e.w.mu.Unlock()
 	if ctx.Err() != nil {
 		// the pipeline that sent this batch has been stopped in the meantime
+		if len(logs) > 0 {
+			e.w.note("  Accept[%d..] arrives with a cancelled context (sender stopped): refused", *logs[0].ID)
+		}
 		return nil, ctx.Err()
 	}
 	e.w.acceptCalls++
@@ -281,13 +300,25 @@ func (e exporter) Accept(ctx context.Context, logs ...drivers.LogWithLedger) ([]
 	if len(logs) == 0 {
 		return nil, nil
 	}
-	if first := *logs[0].ID; first > e.w.ackedMax+1 {
+	batched := e.w.batchMax > 0
+	if first := *logs[0].ID; !batched && first > e.w.ackedMax+1 {
 		e.w.violate("batch [%s] starts at %d although the exporter has acknowledged nothing beyond %d since the pipeline was last reset/created: logs %d..%d are skipped", strings.Join(ids, ","), first, e.w.ackedMax, e.w.ackedMax+1, first-1)
+	}
+	// behind the batcher a page arrives as several batches, and a later batch is sent whatever became of the earlier ones
+	// (the page is then retried as a whole), and a batch of the pipeline stopped by a reset may still arrive after it: the
+	// order between batches is judged only against what has ever been offered - no log may be passed over without having
+	// been handed to the exporter at all
+	if first := *logs[0].ID; batched && first > e.w.offeredMax+1 {
+		e.w.violate("batch [%s] starts at %d although nothing beyond %d has ever been offered to the exporter: logs %d..%d are skipped", strings.Join(ids, ","), first, e.w.offeredMax, e.w.offeredMax+1, first-1)
+	}
+	if last := *logs[len(logs)-1].ID; last > e.w.offeredMax {
+		e.w.offeredMax = last
 	}
 	if e.w.heldFromOlderEpoch > 0 {
 		// steer the schedule: while a state write issued before the reset is still in flight, the exporter is
 		// unavailable, so that the write lands before the restarted pipeline has caught up again
 		e.w.acceptFailures++
+		e.w.note("  Accept[%s] -> error (a state write issued before the reset is still in flight)", strings.Join(ids, ","))
 		return nil, errors.New("exporter unavailable")
 	}
 	if e.w.failAccepts > 0 {
@@ -296,20 +327,40 @@ func (e exporter) Accept(ctx context.Context, logs ...drivers.LogWithLedger) ([]
 		e.w.note("  Accept[%s] -> error", strings.Join(ids, ","))
 		return nil, errors.New("exporter unavailable")
 	}
-	for _, l := range logs {
+	itemErrs := make([]error, len(logs))
+	mask := 0
+	if batched {
+		mask, e.w.failItemsNext = e.w.failItemsNext, 0
+	}
+	var refused []string
+	for i, l := range logs {
+		if mask&(1<<i) != 0 {
+			itemErrs[i] = errors.New("item refused")
+			refused = append(refused, ids[i])
+			continue
+		}
 		e.w.delivered[*l.ID]++
 		e.w.everDelivered[*l.ID] = true
 		if *l.ID > e.w.ackedMax {
 			e.w.ackedMax = *l.ID
 		}
 	}
-	e.w.note("  Accept[%s] -> ok", strings.Join(ids, ","))
-	return make([]error, len(logs)), nil
+	if len(refused) > 0 {
+		e.w.partialFails++
+		e.w.acceptFailures++
+		e.w.note("  Accept[%s] -> ok except [%s] (per-item errors)", strings.Join(ids, ","), strings.Join(refused, ","))
+	} else {
+		e.w.note("  Accept[%s] -> ok", strings.Join(ids, ","))
+	}
+	return itemErrs, nil
 }
 
 type factory struct{ w *world }
 
 func (f factory) Create(context.Context, string) (drivers.Driver, json.RawMessage, error) {
+	if f.w.batchMax > 0 {
+		return exporter{f.w}, json.RawMessage(fmt.Sprintf(`{"batching":{"maxItems":%d,"flushInterval":"300us"}}`, f.w.batchMax)), nil
+	}
 	return exporter{f.w}, nil, nil
 }
 
@@ -319,7 +370,7 @@ func (noValidation) ValidateConfig(string, json.RawMessage) error { return nil }
 
 // ---------------------------------------------------------------- the check
 
-const ruleC33 = "the real Manager / PipelineHandler / DriverFacade (real goroutines, pull and retry periods of 200us) over an in-memory Storage and a recording exporter: generated sequences of {append 1-5 logs, make the next 1-3 Accepts fail, stop pipeline, start pipeline, reset pipeline, restart the manager, hold / release the StorePipelineState calls, let it run, settle}. Checked at every Accept: batch ascending, contiguous, of the right ledger, and starting no later than (last id acknowledged since the last reset)+1; at every StorePipelineState: value <= last id acknowledged since the last reset; at every settle (exporter healthy, pipeline started, gates open; progress measured in the pipeline's own polls): every log has been delivered since the last reset. Not quiescing within the poll budget is inconclusive; non-trivial = sequence with a reset or restart while logs were pending or a store was held, and >= 1 failed Accept; distinct = by action sequence"
+const ruleC33 = "the real Manager / PipelineHandler / DriverFacade (real goroutines, pull and retry periods of 200us) over an in-memory Storage and a recording exporter, plugged in directly or behind the real batching driver (maxItems 1, 2 or 5 for pages of 3, flush interval 300us; as wired in production): generated sequences of {append 1-5 logs, make the next 1-3 Accepts fail, make the next Accept refuse single items (per-item errors, batched mode), stop pipeline, start pipeline, reset pipeline, restart the manager, hold / release the StorePipelineState calls, let it run, settle}. Checked at every Accept: batch ascending, contiguous, of the right ledger, and starting no later than (last id acknowledged since the last reset)+1 (behind the batcher, where the batches of a page are sent whatever became of the earlier ones and the page is then retried as a whole: no later than (last id ever offered)+1); at every StorePipelineState: value <= n where 1..n have all been acknowledged since the last reset; at every settle (exporter healthy, pipeline started, gates open; progress measured in the pipeline's own polls): every log has been delivered since the last reset. Not quiescing within the poll budget is inconclusive; non-trivial = sequence with a reset or restart while logs were pending or a store was held, and >= 1 failed Accept; distinct = by action sequence"
 
 type sys struct {
 	w        *world
@@ -330,7 +381,12 @@ type sys struct {
 }
 
 func newManager(w *world) *replication.Manager {
-	return replication.NewManager(storage{w}, factory{w}, logging.NewDefaultLogger(discard{}, false, false, false), noValidation{},
+	logger := logging.NewDefaultLogger(discard{}, false, false, false)
+	var f drivers.Factory = factory{w}
+	if w.batchMax > 0 {
+		f = drivers.NewWithBatchingDriverFactory(f, logger)
+	}
+	return replication.NewManager(storage{w}, f, logger, noValidation{},
 		replication.WithSyncPeriod(time.Hour),
 		replication.WithPipelineOptions(replication.WithPullPeriod(200*time.Microsecond), replication.WithPushRetryPeriod(200*time.Microsecond), replication.WithLogsPageSize(3)))
 }
@@ -471,21 +527,72 @@ func pinnedStaleStore() string {
 	return ""
 }
 
+// pinnedBatcherCancelled replays, without rapid, the two defects found behind the real batching driver (repaired):
+// a page pushed with a context that is already done must neither crash (nil operation) nor let a later log reach the
+// exporter without its predecessors.
+func pinnedBatcherCancelled() (problem string) {
+	defer func() {
+		if r := recover(); r != nil {
+			problem = fmt.Sprintf("Accept on the batching driver panics when the sender's context is done: %v", r)
+		}
+	}()
+	logger := logging.NewDefaultLogger(discard{}, false, false, false)
+	for trial := 0; trial < 300; trial++ {
+		w := newWorld()
+		w.batchMax = 1 + trial%2
+		d, _, err := drivers.NewWithBatchingDriverFactory(factory{w}, logger).Create(context.Background(), "x")
+		if err != nil {
+			return ""
+		}
+		if err := d.Start(context.Background()); err != nil {
+			return ""
+		}
+		mk := func(from, to int) (page []drivers.LogWithLedger) {
+			for i := from; i <= to; i++ {
+				page = append(page, drivers.LogWithLedger{Ledger: "l1", Log: ledger.Log{ID: pointer.For(uint64(i)), Type: ledger.NewTransactionLogType}})
+			}
+			return page
+		}
+		// a first page with a live context: the batch loop is then known to be receiving
+		if _, err := d.Accept(context.Background(), mk(1, 1)...); err != nil {
+			return ""
+		}
+		ctx, cancel := context.WithCancel(context.Background())
+		cancel()
+		_, _ = d.Accept(ctx, mk(2, 5)...)
+		time.Sleep(50 * time.Microsecond)
+		sctx, scancel := context.WithTimeout(context.Background(), 5*time.Second)
+		_ = d.Stop(sctx)
+		scancel()
+		w.mu.Lock()
+		v := w.violation
+		w.mu.Unlock()
+		if v != "" {
+			return fmt.Sprintf("a page of 4 logs pushed with a done context (maxItems=%d): %s", w.batchMax, v)
+		}
+	}
+	return ""
+}
+
 func TestC33(t *testing.T) {
 	st := stats.New("C33", "exploration", ruleC33,
 		"Storage and the exporter driver are in-memory fakes; the Manager, PipelineHandler and DriverFacade are the real code with real goroutines, so the interleaving is only steered (holds, failures, pauses), not owned: a violation is reported with the recorded call history rather than a replayable schedule",
 		"liveness is only judged in the pipeline's own polls (300 ListLogs calls without full delivery); a wall-clock stall is inconclusive")
 	defer st.Write(t)
 	for i := 0; i < 5; i++ {
-		if v := pinnedStaleStore(); v != "" {
+		if v := pinnedStaleStore(); v != "" && !stats.SkipPinned() {
 			t.Fatalf("VIOLATION[C33] (pinned sequence hold, append, reset, release): %s", v)
 		}
 	}
-	st.Set("pinned_sequences", 5)
+	if v := pinnedBatcherCancelled(); v != "" && !stats.SkipPinned() {
+		t.Fatalf("VIOLATION[C33] (pinned: batching driver, sender stopped): %s", v)
+	}
+	st.Set("pinned_sequences", 6)
 	n := stats.N(150, 500)
 	st.Set("requested_checks", n)
 	stats.Check(t, n, 33, func(rt *rapid.T) {
 		w := newWorld()
+		w.batchMax = rapid.SampledFrom([]int{0, 0, 1, 2, 2, 5}).Draw(rt, "batchMaxItems")
 		s := &sys{w: w, m: newManager(w)}
 		go s.m.Run(context.Background())
 		<-s.m.Started()
@@ -531,6 +638,7 @@ func TestC33(t *testing.T) {
 			release()
 			w.mu.Lock()
 			w.failAccepts = 0
+			w.failItemsNext = 0
 			w.mu.Unlock()
 			s.drain(rt)
 			if !s.started {
@@ -593,6 +701,18 @@ func TestC33(t *testing.T) {
 				w.mu.Unlock()
 				failedAccepts = true
 				actions = append(actions, fmt.Sprintf("fail %d", k))
+			},
+			"failItems": func(t *rapid.T) {
+				if w.batchMax == 0 {
+					return // per-item errors only reach the pipeline through the batcher
+				}
+				mask := rapid.IntRange(1, 7).Draw(t, "refusedItems")
+				w.mu.Lock()
+				w.failItemsNext = mask
+				w.note("the next Accept refuses the items at positions %03b (read right to left) only", mask)
+				w.mu.Unlock()
+				failedAccepts = true
+				actions = append(actions, fmt.Sprintf("failItems %03b", mask))
 			},
 			"stop": func(t *rapid.T) {
 				if !s.started {
@@ -678,7 +798,7 @@ func TestC33(t *testing.T) {
 		rt.Repeat(step)
 		settle()
 		w.mu.Lock()
-		nlogs, fails, resets := len(w.logs), w.acceptFailures, w.resets
+		nlogs, fails, resets, partial := len(w.logs), w.acceptFailures, w.resets, w.partialFails
 		hist := append([]string{}, w.history...)
 		w.mu.Unlock()
 		var classes []string
@@ -691,7 +811,11 @@ func TestC33(t *testing.T) {
 		if riskyReset {
 			classes = append(classes, "reset-or-restart-with-pending-work")
 		}
-		st.Case(strings.Join(actions, ","), riskyReset && failedAccepts && fails > 0 && nlogs > 0, func() any {
+		classes = append(classes, fmt.Sprintf("batching-maxItems:%d", w.batchMax))
+		if partial > 0 {
+			classes = append(classes, "batch-partly-refused")
+		}
+		st.Case(fmt.Sprintf("batch=%d:", w.batchMax)+strings.Join(actions, ","), riskyReset && failedAccepts && fails > 0 && nlogs > 0, func() any {
 			h := hist
 			if len(h) > 30 {
 				h = h[:30]
